@@ -475,22 +475,40 @@ func duplicates(run *ev.Run, unit int64, r *rand.Rand) {
 		ln.Close()
 		return
 	}
-	select {
-	case err := <-done:
-		cancel()
-		if err == nil || cl.accepts.Load() != 0 {
-			run.Violate("duplicate_not_refused;"+what, fmt.Sprintf("Main returned %v with %d Accept calls for a configuration with a duplicated origin", err, cl.accepts.Load()), unit, map[string]any{"yaml": string(omniwitness.ConfigLogs)})
-		} else {
-			run.Count("duplicate_configs_refused")
-			if unit < 4 {
-				run.Sample(map[string]any{"part": "duplicates", "what": what, "main_error": err.Error()[:min(len(err.Error()), 160)]})
+	// The verdict is structural, not a deadline: "refused at start-up" = Main returns an error
+	// without ever accepting a connection; "not refused" = the service answers on its listener.
+	hc := &http.Client{Timeout: 700 * time.Millisecond}
+	deadline := time.Now().Add(90 * time.Second)
+	for {
+		select {
+		case err := <-done:
+			cancel()
+			if err == nil || cl.accepts.Load() != 0 {
+				run.Violate("duplicate_not_refused;"+what, fmt.Sprintf("Main returned %v with %d Accept calls for a configuration with a duplicated origin", err, cl.accepts.Load()), unit, map[string]any{"yaml": string(omniwitness.ConfigLogs)})
+			} else {
+				run.Count("duplicate_configs_refused")
+				if unit < 4 {
+					run.Sample(map[string]any{"part": "duplicates", "what": what, "main_error": err.Error()[:min(len(err.Error()), 160)]})
+				}
 			}
+			ln.Close()
+			return
+		case <-time.After(200 * time.Millisecond):
 		}
-	case <-time.After(3 * time.Second):
-		// Main is serving: the duplicate was not refused at start-up
-		cancel()
-		<-done
-		run.Violate("duplicate_not_refused;"+what, "Main kept running with a duplicated origin in the configuration", unit, map[string]any{"yaml": string(omniwitness.ConfigLogs)})
+		if resp, err := hc.Get("http://" + ln.Addr().String() + "/witness/v0/logs"); err == nil {
+			resp.Body.Close()
+			// Main is serving: the duplicate was not refused at start-up
+			cancel()
+			<-done
+			run.Violate("duplicate_not_refused;"+what, "Main serves its API with a duplicated origin in the configuration", unit, map[string]any{"yaml": string(omniwitness.ConfigLogs)})
+			ln.Close()
+			return
+		}
+		if time.Now().After(deadline) {
+			cancel()
+			run.Inconclusive("watchdog: Main neither returned nor served within 90 s")
+			ln.Close()
+			return
+		}
 	}
-	ln.Close()
 }
